@@ -40,7 +40,8 @@ VERIFY_FAIL_MSGS = ('postcondition not satisfied', 'precondition not satisfied',
                     'possible arithmetic', 'possible division by zero', 'invariant not satisfied',
                     'loop invariant', 'decreases not satisfied', 'possible bit shift', 'assertion failure',
                     'unreachable code may be reachable', 'constructed value may fail to meet its declared type invariant',
-                    'could not prove termination', 'failed to prove', 'cannot show invariant', 'invariant not', 'unable to prove', 'closure')
+                    'could not prove termination', 'failed to prove', 'cannot show invariant', 'invariant not', 'unable to prove', 'closure',
+                    'precondition not met', 'not satisfied', 'recommendation not met', 'might fail')
 
 
 class Undecided(Exception):
@@ -172,7 +173,8 @@ def verus_unit(unit, workdir, text, tier):
     def _prim_line(d):
         sp = [x for x in d.get('spans', []) if x.get('is_primary')] or d.get('spans', [])
         return sp[0].get('line_start') if sp else None
-    if vr is None or vr.get('encountered-vir-error'):
+    compile_phase = vr is not None and vr.get('encountered-error') and not vr.get('errors') and not vr.get('verified') and errs
+    if vr is None or vr.get('encountered-vir-error') or compile_phase:
         msg = '; '.join('%s (line %s)' % (d.get('message'), (d.get('spans') or [{}])[0].get('line_start')) for d in errs[:4])
         raise NotVerifiable('verus rejected the rendered unit %s (not a verification result): %s %s'
                             % (unit.NAME, msg, ' '.join(r['raw'][:3])), [(d.get('message', ''), _prim_line(d)) for d in errs])
@@ -194,8 +196,8 @@ def verus_unit(unit, workdir, text, tier):
         if 'rlimit' in msg.lower() or 'resource limit' in msg.lower():
             raise Undecided('verus resource limit in unit %s: %s' % (unit.NAME, msg))
         if not any(k in msg for k in VERIFY_FAIL_MSGS):
-            raise NotVerifiable('verus error that is not a verification failure in unit %s: %s' % (unit.NAME, msg),
-                                [(dd.get('message', ''), _prim_line(dd)) for dd in errs if not any(k in dd.get('message', '') for k in VERIFY_FAIL_MSGS)])
+            # verification did run (verus printed results): an unknown message here is NOT a compile error, so no quarantine
+            raise Undecided('verus error that is not a known verification failure in unit %s: %s' % (unit.NAME, msg))
         hit = []
         for s in d.get('spans', []):
             lab = (s.get('label') or '')
@@ -580,12 +582,56 @@ def _quarantine(text, ctx, errors):
             return None
         hit.setdefault(found[1].key, (found[0], found[1], msg))
     out = text
+    reasons = {k: v[2] for k, v in hit.items()}
     for key, (x, e, msg) in sorted(hit.items(), key=lambda kv: -kv[1][0][0]):
         if '@QUARANTINED' in out[x[0]:x[2]]:
             return None
         out = out[:x[1]] + '{ unimplemented!() } // @QUARANTINED' + out[x[2]:]
         out = out[:x[0]] + '#[verifier::external_body] ' + out[x[0]:]
-    return out, {k: v[2] for k, v in hit.items()}
+    return out, reasons
+
+
+def _escalate(text, ctx, errors, quarantined):
+    """an auto-included helper that cannot even be declared (its signature is outside the subset): drop it and quarantine its callers"""
+    lines = text.split('\n')
+    drop = {}
+    for (msg, ln) in errors:
+        if ln is None:
+            return None
+        off = len('\n'.join(lines[:ln - 1])) + 1
+        found = None
+        for e in ctx.extracted:
+            if e.key.startswith('helper:') and e.key in quarantined:
+                sig = e.fn_parts()[0]
+                pos = text.find(sig)
+                if pos >= 0:
+                    end = text.find('// @QUARANTINED', pos)
+                    if end >= 0 and pos <= off <= end + 20:
+                        found = (e, pos, end + len('// @QUARANTINED'))
+        if not found:
+            return None
+        drop[found[0].key] = (found, msg)
+    out = text
+    names = []
+    for key, ((e, pos, end), msg) in sorted(drop.items(), key=lambda kv: -kv[1][0][1]):
+        start = out.rfind('#[verifier::external_body] ', 0, pos)
+        out = out[:start if start >= 0 and pos - start < 40 else pos] + '// (helper %s dropped: it cannot be declared in this subset) ' % key + out[end:]
+        names.append(_called_name(e))
+    callers = {}
+    for e in ctx.extracted:
+        if getattr(e, 'sig_final', None) and e.key not in quarantined:
+            body = getattr(e, 'body_final', '') or ''
+            for nm in names:
+                if nm and re.search(r'(?:\b|\.)%s\s*(?:::<[^>]*>)?\(' % re.escape(nm), body):
+                    callers[e.key] = 'calls helper %s, which cannot be declared in the verifier\'s subset (%s)' % (nm, list(drop.values())[0][1][:160])
+    for key in sorted(callers, key=lambda k: -(_fn_extent(out, [e for e in ctx.extracted if e.key == k][0]) or (0,))[0]):
+        e = [x for x in ctx.extracted if x.key == key][0]
+        x = _fn_extent(out, e)
+        if not x:
+            return None
+        out = out[:x[1]] + '{ unimplemented!() } // @QUARANTINED' + out[x[2]:]
+        out = out[:x[0]] + '#[verifier::external_body] ' + out[x[0]:]
+    return out, callers
 
 
 def _called_name(e):
@@ -604,7 +650,9 @@ def verus_unit_quarantining(unit, ctx, workdir, text, tier):
         except NotVerifiable as err:
             q = _quarantine(text, ctx, err.errors)
             if not q or not q[1] or any(k in quarantined for k in q[1]):
-                raise
+                q = _escalate(text, ctx, err.errors, quarantined)
+                if not q or not q[1]:
+                    raise
             text = q[0]
             quarantined.update(q[1])
     if r is None:
@@ -621,7 +669,8 @@ def verus_unit_quarantining(unit, ctx, workdir, text, tier):
             have[o['id']] = dict(o, fn_key=fk, status='unreached', backend='verus/z3', detail=[])
             r['obligations'].append(have[o['id']])
     # callers (transitively) of quarantined functions rely on a contract nobody verified
-    names = {k: _called_name(e) for e in ctx.extracted for k in [e.key] if k in quarantined}
+    # (a quarantined auto-included helper has no contract to rely on: its callers are verified against an arbitrary result)
+    names = {k: _called_name(e) for e in ctx.extracted for k in [e.key] if k in quarantined and not k.startswith('helper:')}
     dependent = {}
     changed = True
     bodies = {e.key: (getattr(e, 'body_final', None) or '') for e in ctx.extracted if getattr(e, 'sig_final', None)}
